@@ -24,9 +24,19 @@ CLAIMS = {
             "map the six simple sections read back from the rendered encoding as the carry of the map (general, editor, "
             "metadata incl. positive ids, difficulty, background/breaks, colours); model-level vm_compute witnesses for the "
             "recorded classes D12, D13, D17, D22 and a complete example round trip over all sections, control points and hit "
-            "objects. Stated but NOT mechanised: hit-object lines (T02b), path strings (T02c; convert_path_str = path_spec "
-            "is proved in C14 and is its base), timing points and sliders end to end (T02d/e) - these are covered by the "
-            "`enc` correspondence (decoder, curve, slider-event and encoder models composed, rendered with Rust's Display, "
+            "objects. T02c (full): every control-point list in the decoder's image (path_image, proved to hold of everything "
+            "convert_path_str produces) and outside D13 / D17 / consecutive Catmull is written to a path string that "
+            "convert_path_str reads back to the very same list (path_round_trip; f32 position arithmetic and the `as i32` "
+            "casts by explicit lemmas; extra Display hypothesis fmt_f32_int). T02b per line: the object the decoder reads "
+            "from the encoder's circle / spinner / hold line equals the written one up to what the format cannot carry "
+            "(carry_object), in every parser state; time side conditions proved for integer times only "
+            "(C02_times_ok_partial). T02d partial: collect_samples changes only the sample points; control points of every "
+            "decoded map are sorted; decoding the rendered [TimingPoints] section gives back the timing points and the "
+            "slider-velocity / kiai / scroll timelines agree at every time (C02_timing_round_trip_partial) under the "
+            "decidable side conditions rt_side (values separated by >= EPSILON - refuted otherwise: D27, D28; velocities "
+            "surviving -100/sv -> 100/-x; the D12 exclusion; written numbers within limits) which are hypotheses, not yet "
+            "facts about every decoded map. NOT mechanised: sliders end to end incl. curves and velocities (T02e), "
+            "composition with the framing theorem - covered by the `enc` correspondence (decoder, curve, slider-event and encoder models composed, rendered with Rust's Display, "
             "compared with encode_to_string byte for byte) and by the oracle. D2 and D16 were found by this package's "
             "checks and repaired (4262585, d78b06a). Oracle: field-by-field comparison of decode(x) and "
             "decode(encode(decode(x))) for exactly the items the property lists, timelines sampled at all control-point "
@@ -45,10 +55,15 @@ CLAIMS = {
             "skipped; every body line of the six simple sections is accepted in every parser state and the section reads "
             "back as its record (decode_image_inv: every decoded map is in that domain, outside D23); circle, spinner and "
             "hold lines are accepted in every state and add exactly one object of the same kind, start and position; "
-            "every [TimingPoints] body line has the parsed shape. PARTIAL: slider lines and the decoder-image side "
-            "conditions of object/timing lines are stated, not mechanised (start+duration can leave the parse limit by "
-            "rounding: class D21 and relatives) - covered by correspondence and oracle. D2 was found here and repaired "
-            "(4262585). Oracle: every non-blank line of the real encoding is fed to the public parse function of its "
+            "every [TimingPoints] body line parses to all ten fields (tp_line_parsed); slider lines: the whole encoded "
+            "slider line is accepted in every parser state and adds one slider with the same control points, repeat count "
+            "and node count (slider_line_accepted, under the boolean slider_ok); every decoded map's objects satisfy "
+            "object_image (decoded_objects_image: invariant carried through the line parsers, the stable sort, break "
+            "post-processing and the per-object loop), and for a decoded map whose objects satisfy `residual` every "
+            "[HitObjects] line is accepted (decoded_hit_object_lines_accepted). PARTIAL: `residual` names exactly what is "
+            "not an invariant of decoded maps - sample_ok of processed samples (hypothesis) and the recorded classes D13, "
+            "D17, consecutive Catmull, D21, D26 (end = start + duration beyond the parse limit by an ulp: refuted in Coq "
+            "for every formatting function, end_beyond_limit_rejected). D2 was found here and repaired (4262585). Oracle: every non-blank line of the real encoding is fed to the public parse function of its "
             "section; headers, order, counts after re-decoding.",
             "§6 C04"),
     "C07": ("Unbounded theorems (coq/Properties/C07.v), for ANY curve-distance function: the nine decoder types are nine "
